@@ -123,11 +123,13 @@ def check_types(m, cls, path: str = "", depth: int = 0) -> Optional[str]:
 
 
 def structure(buf: bytes, cls, base: int = 0, end: Optional[int] = None, depth: int = 0,
-              tags: Optional[list] = None, lens: Optional[list] = None):
+              tags: Optional[list] = None, lens: Optional[list] = None, tails: Optional[list] = None):
     """Offsets of every tag byte and every length byte at every nesting depth reachable through
     fields the schema declares as messages / maps (independent parser)."""
     if tags is None:
         tags, lens = [], []
+    if tails is None:
+        tails = []
     try:
         fields = wire.parse_fields(buf, base, end)
     except wire.WireError:
@@ -144,13 +146,100 @@ def structure(buf: bytes, cls, base: int = 0, end: Optional[int] = None, depth: 
                     sub = "map"
                 elif fi.proto_type == "message":
                     sub = fi.py_cls if (isinstance(fi.py_cls, type) and issubclass(fi.py_cls, betterproto.Message)) else "wkt"
-                if sub is not None:
-                    structure(buf, sub if isinstance(sub, type) else None, f.len_end, f.end, depth + 1, tags, lens)
+                if sub is None and fi.repeated and fi.proto_type not in ("string", "bytes"):
+                    sub = "packed"
+                if sub is not None and f.end > f.len_end:
+                    tails.append(f.end - 1)      # last payload byte of a structured field
+                if sub is not None and sub != "packed":
+                    structure(buf, sub if isinstance(sub, type) else None, f.len_end, f.end, depth + 1, tags, lens, tails)
     return tags, lens
+
+
+
+def structure3(buf: bytes, cls):
+    tags, lens, tails = [], [], []
+    structure(buf, cls, tags=tags, lens=lens, tails=tails)
+    return tags, lens, tails
 
 
 ENFORCED = ("truncated", "length past the end", "unterminated group", "invalid wire type", "field number 0",
             "truncated inside group")
+
+
+def _packed_problem(payload: bytes, proto_type: str) -> Optional[str]:
+    if proto_type in _I32_T:
+        return "packed fixed32 payload is not a multiple of 4 bytes" if len(payload) % 4 else None
+    if proto_type in _I64_T:
+        return "packed fixed64 payload is not a multiple of 8 bytes" if len(payload) % 8 else None
+    pos = 0
+    while pos < len(payload):
+        try:
+            _, pos = wire.dec_varint(payload, pos)
+        except wire.WireError as e:
+            return f"packed element: {e}" if str(e).startswith("truncated") else None
+    return None
+
+
+def _msg_problem(payload: bytes, cls, depth: int = 0) -> Optional[str]:
+    """A structural problem (cut field, wire type 6/7, field number 0) anywhere inside the payload of a
+    field the schema declares as a message / map entry / packed list - judged by the independent parser."""
+    try:
+        fields = wire.parse_fields(payload)
+    except wire.WireError as e:
+        return str(e) if str(e).startswith(ENFORCED) else "?"
+    if cls is None or depth > 8:
+        return None
+    ci = class_info(cls)
+    for f in fields:
+        fi = ci.by_number.get(f.num)
+        if fi is None or f.wt != wire.LEN or wire.LEN not in declared_wire_types(fi):
+            continue
+        r = _field_problem(f.value, fi, depth + 1)
+        if r:
+            return r
+    return None
+
+
+def _field_problem(payload: bytes, fi, depth: int) -> Optional[str]:
+    if fi.is_map:
+        try:
+            entry = wire.parse_fields(payload)
+        except wire.WireError as e:
+            return f"map entry: {e}" if str(e).startswith(ENFORCED) else "?"
+        kt, vt = fi.map_types
+        if vt == "message":
+            for f in entry:
+                if f.num == 2 and f.wt == wire.LEN:
+                    r = _msg_problem(f.value, fi.map_value_cls, depth + 1)
+                    if r:
+                        return r
+        return None
+    if fi.proto_type == "message":
+        sub = fi.py_cls if (isinstance(fi.py_cls, type) and issubclass(fi.py_cls, betterproto.Message) and not fi.wraps) else None
+        return _msg_problem(payload, sub, depth)
+    if fi.repeated and fi.proto_type not in ("string", "bytes"):
+        return _packed_problem(payload, fi.proto_type)
+    return None
+
+
+def deep_problem(buf: bytes, cls) -> Optional[Tuple[str, bytes]]:
+    """(reason, bytes of the top-level occurrence) for the first well-delimited top-level field whose
+    payload is itself malformed; None if there is none or the top level is already malformed."""
+    try:
+        top = wire.parse_fields(buf)
+    except wire.WireError:
+        return None
+    ci = class_info(cls)
+    for f in top:
+        fi = ci.by_number.get(f.num)
+        if fi is None or f.wt != wire.LEN or wire.LEN not in declared_wire_types(fi):
+            continue
+        r = _field_problem(f.value, fi, 1)
+        if r and r != "?":
+            return r, buf[f.start:f.end]
+        if r == "?":
+            return None
+    return None
 
 
 def top_level_malformed(buf: bytes) -> Optional[str]:
@@ -247,6 +336,12 @@ class _Run:
                 raise Violation("C17.M2", f"cannot-reencode:{kind}",
                                 f"[{kind}] {detail} input {data.hex()[:200]} ({cls.__name__}) decoded, but bytes() "
                                 f"raises {type(e).__name__}: {e}")
+            dp = deep_problem(data, cls)
+            if dp is not None and dp[1] not in out:
+                raise Violation("C17.M3", f"accepted-nested:{kind}",
+                                f"[{kind}] {detail} input {data.hex()[:200]} ({cls.__name__}): the payload of the "
+                                f"well-delimited field {dp[1].hex()[:80]} is itself cut / malformed ({dp[0]}), yet it was "
+                                f"decoded into {short(got, 140)} instead of being rejected or kept verbatim")
             if expect.startswith("same"):
                 try:
                     eq = (got == base) and all(
@@ -358,7 +453,15 @@ class _Run:
                 self.judge(cls, enc[:k], "truncate", "raise", detail=f"cut at byte {k} of {n}, inside a field;")
                 stats["fault:truncate-inside-field"] += 1
         # (b) single-byte replacement of tag bytes and length bytes, at every nesting depth
-        tags, lens = structure(enc, cls)
+        tags, lens, tails = structure3(enc, cls)
+        # (h) the last byte of every structured payload (nested message, map entry, packed list) gets its
+        #     continuation bit set, or is replaced: a cut *inside* a well-delimited field
+        for off in tails:
+            b = enc[off]
+            for a in sorted({b | 0x80, b ^ 0x80, 0x80, 0xFF, tape.draw(256, "tail-alt")} - {b}):
+                data = enc[:off] + bytes([a]) + enc[off + 1:]
+                self.judge(cls, data, "payload-tail-byte", "any", detail=f"byte {off}: {b:#04x}->{a:#04x};")
+                stats["fault:replace-last-byte-of-nested-or-packed-payload"] += 1
         for offs, kind in ((tags, "tag-byte"), (lens, "length-byte")):
             for off in offs:
                 b = enc[off]
@@ -456,7 +559,8 @@ class CorruptSim(Simulator):
     generation_rule = ("Each history draws a message class and an in-domain value, encodes it (betterproto or reference "
                        "writer), then applies the whole storage-fault space to the stored bytes: truncation at EVERY byte "
                        "(encodings <= 128 B), replacement of every tag byte and every length byte at every nesting depth "
-                       "(structured alternatives + 6 drawn; all 255 in the thorough tier for encodings <= 64 B), every "
+                       "(structured alternatives + 6 drawn; all 255 in the thorough tier for encodings <= 64 B), the last byte of "
+                       "every nested-message / map-entry / packed payload (dangling continuation bit), every "
                        "known field re-sent under every non-fitting legal wire type, wire types 6/7, field number 0, "
                        "proto2 groups colliding with known numbers, over-long varints, lengths past the end / 2^63, "
                        "random strings and 1-3-flip sequences. Every mutated input is decoded through parse, every third one also through a "
@@ -469,11 +573,12 @@ class CorruptSim(Simulator):
     assumptions = ["value domain of valgen", "top-level malformedness is judged by the independent wire parser",
                    "agreement with the reference decoder is recorded (coverage.counters ref:*), not enforced"]
     tiers = {
-        "quick": dict(runs=640, chunk=8, wall_cap=300, det_sample=24),
+        "quick": dict(runs=480, chunk=6, wall_cap=300, det_sample=18),
         "thorough": dict(runs=16000, chunk=20, wall_cap=1500, det_sample=400),
     }
     expected_probes = ["fault:wire-type-substitution", "fault:group", "fault:field-number-0",
-                       "fault:truncate-inside-field", "fault:replace-tag-byte", "fault:replace-length-byte"]
+                       "fault:truncate-inside-field", "fault:replace-tag-byte", "fault:replace-length-byte",
+                       "fault:replace-last-byte-of-nested-or-packed-payload"]
     thorough = False
 
     def prepare(self, tier):
